@@ -288,9 +288,13 @@ func checkMain(args []string) int {
 				o3 := *o
 				o3.Guard = and(append([]Term{o.Guard}, small...)...)
 				o3.Name = o.Name + "~small"
-				o3.Solve(work, timeout, false)
-				if o3.Status == "sat" && len(o3.Model) > 0 {
-					o.Model = o3.Model
+				o3.Parts = nil
+				w, _ := race(o3.ScriptSmall(25), work, sanitize(o3.Name), timeout, false)
+				if w.status == "sat" {
+					if m := parseModel(w.out); len(m) > 0 {
+						o.Model = m
+						o.Raw += "\n--- small model (all input lengths <= 24, quantified assumptions expanded over 0..24) ---\n" + truncate(w.out, 3000)
+					}
 				}
 			}
 			src, predicted, _, note := v.BuildReplay(r, o)
